@@ -38,6 +38,23 @@ def javaCompatibleUsername (name : Bytes) : Bytes :=
   let n := normLoop (decodeRunes name) []
   if n.length = 0 then [95] else n
 
+/-- `onGameProfile`: `formattedName := Username; if format != "" { formattedName = fmt.Sprintf(format, Username) };
+    formattedName = javaCompatibleUsername(formattedName)`.  `sprintf` is an ARBITRARY function (parameter). -/
+def profileName (sprintf : Bytes → Bytes → Bytes) (format gamertag : Bytes) : Bytes :=
+  javaCompatibleUsername (if format.isEmpty then gamertag else sprintf format gamertag)
+
+/-- split a format with exactly one `%`, which starts the verb `%s`, into (prefix, suffix) -/
+def cutVerb : Bytes → Option (Bytes × Bytes)
+  | [] => none
+  | 37 :: 115 :: r => if r.contains 37 then none else some ([], r)
+  | 37 :: _ => none
+  | b :: r => (cutVerb r).map fun (p, s) => (b :: p, s)
+
+/-- `fmt.Sprintf(format, gamertag)` for the formats `prefix%ssuffix` without any other `%`
+    (the class the documentation and the validation suggest); `none` outside that class -/
+def simpleSprintf (format gamertag : Bytes) : Option Bytes :=
+  (cutVerb format).map fun (p, s) => p ++ gamertag ++ s
+
 /-! ### XUID → UUID -/
 
 /-- ASCII bytes of a list of (ASCII) characters -/
